@@ -6,3 +6,4 @@ import Props.C09
 #print axioms Bycycle.C09_monotonicity
 #print axioms Bycycle.C09_burst_fraction
 #print axioms Bycycle.C09_labels
+#print axioms Bycycle.C09_mirror
